@@ -1,7 +1,8 @@
 """Litmus tests for the scheduler / virtual primitives (run by setup.sh)."""
+import os
 import sys
 
-sys.path.insert(0, "/repo")
+sys.path.insert(0, os.environ.get("VERIF_REPO", "/repo"))
 from . import explore, sched as S, vthreading as vt, vtime  # noqa: E402
 
 
